@@ -15,23 +15,16 @@ Let K1 : (1 : K) <> 0. Proof. destruct Kf as [_ H1 _ _]. exact H1. Qed.
 Hint Resolve K1 : core.
 Ltac side := repeat split; auto.
 
-(* the classes whose default parameters do NOT give the identity on the unchanged tree *)
-Definition fresh_defect (c : lclass) : bool :=
-  match c with LHomogeneousTransform | LQuaternionRotation | LRigidQuaternionTransform => true | _ => false end.
-
-Lemma fresh_is_identity_partial (c : lclass) (D : nat) :
-  fresh_defect c = false -> In D (gen_fresh_dims c) -> fresh_identity (K:=K) c D.
+(* every linear class of spatial/linear.py, every admissible dimension *)
+Lemma fresh_is_identity (c : lclass) (D : nat) : In D (gen_fresh_dims c) -> fresh_identity (K:=K) c D.
 Proof.
-  intros Hc HD x. destruct c; try discriminate Hc; cbn in HD;
+  intros HD x. destruct c; cbn in HD;
     repeat (destruct HD as [<- | HD]; [fcbv; list_eq; ring|]); destruct HD.
 Qed.
 
-Lemma fresh_is_identity_but3 (c : lclass) (D : nat) :
-  c <> LHomogeneousTransform -> c <> LQuaternionRotation -> c <> LRigidQuaternionTransform ->
-  In D (gen_fresh_dims c) -> fresh_identity (K:=K) c D.
-Proof.
-  intros H1 H2 H3. apply fresh_is_identity_partial. destruct c; try reflexivity; congruence.
-Qed.
+(* the class list and the admissible dimensions, as found in the source *)
+Lemma fresh_dims_cover : forall c : lclass, In c all_lclass /\ In 3%nat (gen_fresh_dims c).
+Proof. intro c. destruct c; split; cbn; auto 20. Qed.
 
 (* the parameter -> matrix maps of C07's unit (Gen/LinInv.v) evaluated at the default literals, with the
    re-parameterisations evaluated (tanh 0 = 0, exp 0 = 1: scale 1; cos 0 = 1, sin 0 = 0; tan 0 = 0; |q| = 1),
@@ -47,44 +40,28 @@ Lemma fresh_is_tensor_of_defaults :
   gen_fresh (K:=K) LAnisotropicScaling 3 = gen_anisoscale3_fwd 1 1 1 /\
   gen_fresh (K:=K) LShearing 2 = gen_shear2_fwd 0 /\
   gen_fresh (K:=K) LShearing 3 = gen_shear3_fwd 0 0 0 /\
-  gen_fresh (K:=K) LHomogeneousTransform 2 = gen_homogeneous2_fwd 0 0 0 0 0 0 /\
-  gen_fresh (K:=K) LHomogeneousTransform 3 = gen_homogeneous3_fwd 0 0 0 0 0 0 0 0 0 0 0 0 /\
-  gen_fresh (K:=K) LQuaternionRotation 3 = gen_quaternion_fwd 1 0 0 0 1.
+  gen_fresh (K:=K) LHomogeneousTransform 2 = gen_homogeneous2_fwd 1 0 0 0 1 0 /\
+  gen_fresh (K:=K) LHomogeneousTransform 3 = gen_homogeneous3_fwd 1 0 0 0 0 1 0 0 0 0 1 0 /\
+  gen_fresh (K:=K) LQuaternionRotation 3 = gen_quaternion_fwd 1 1 0 0 0.
 Proof. repeat split; fcbv; list_eq; try reflexivity; field; side. Qed.
 
 (* the default literals themselves *)
 Lemma default_literals :
-  gen_default (K:=K) LQuaternionRotation 3 = [0; 0; 0; 1] /\
-  gen_default (K:=K) LHomogeneousTransform 2 = vzero 6 /\
-  gen_default (K:=K) LHomogeneousTransform 3 = vzero 12 /\
+  gen_default (K:=K) LQuaternionRotation 3 = [1; 0; 0; 0] /\
+  gen_default (K:=K) LHomogeneousTransform 2 = [1; 0; 0; 0; 1; 0] /\
+  gen_default (K:=K) LHomogeneousTransform 3 = [1; 0; 0; 0; 0; 1; 0; 0; 0; 0; 1; 0] /\
   gen_default (K:=K) LTranslation 3 = vzero 3 /\ gen_default (K:=K) LEulerRotation 3 = vzero 3 /\
   gen_default (K:=K) LShearing 3 = vzero 3 /\
   gen_default (K:=K) LIsotropicScaling 3 = [1] /\ gen_default (K:=K) LAnisotropicScaling 3 = [1; 1; 1] /\
   gen_nonrigid_defaults_zero = true.
 Proof. repeat split; reflexivity. Qed.
 
-(* what the quaternion default should be: (w, x, y, z) = (1, 0, 0, 0) is the identity rotation *)
-Lemma quaternion_wxyz_identity : gen_quaternion_fwd (K:=K) 1 1 0 0 0 = eye 3.
-Proof. fcbv. list_eq; field; side. Qed.
-
-(* the fresh QuaternionRotation is the rotation by 180 degrees about z *)
-Lemma fresh_quaternion_is_halfturn :
-  gen_fresh (K:=K) LQuaternionRotation 3 = rot AZ (- (1)) 0.
-Proof. fcbv. list_eq; ring. Qed.
-
-Hypothesis Kc : char0 K.
-Lemma fresh_quaternion_refuted :
-  ~ fresh_identity (K:=K) LQuaternionRotation 3 /\ ~ fresh_identity (K:=K) LRigidQuaternionTransform 3.
-Proof.
-  split; intro H; specialize (H (fun i => match i with 0%nat => 1 | _ => 0 end)); fcbv_in H;
-    injection H as H0 _ _; apply (two_nz K Kf Kc);
-    transitivity ((1:K) - (- (1) * 1 + (0 * 0 + (0 * 0 + 0)))); try ring.
-  - rewrite H0. ring.
-  - transitivity ((1:K) - ((- (1) * 1 + (0 * 0 + (0 * 0 + 0))) + 0)); [ring|]. rewrite H0. ring.
-Qed.
-
-Lemma fresh_homogeneous_refuted (D : nat) : D = 2%nat \/ D = 3%nat -> ~ fresh_identity (K:=K) LHomogeneousTransform D.
-Proof.
-  intros [-> | ->] H; specialize (H (fun _ => 1)); fcbv_in H; injection H as H0; apply K1; rewrite <- H0; ring.
-Qed.
+(* the default quaternion is (w, x, y, z) = (1, 0, 0, 0), the identity rotation; the other candidate reading of
+   the unit quaternion, (0, 0, 0, 1), would be the half turn about z *)
+Lemma quaternion_default_is_identity :
+  gen_default (K:=K) LQuaternionRotation 3 = [1; 0; 0; 0] /\
+  gen_quaternion_fwd (K:=K) 1 1 0 0 0 = eye 3 /\
+  gen_fresh (K:=K) LQuaternionRotation 3 = eye 3 /\
+  gen_quaternion_fwd (K:=K) 1 0 0 0 1 = rot AZ (- (1)) 0.
+Proof. repeat split; fcbv; list_eq; try reflexivity; field; side. Qed.
 End Fresh.
